@@ -125,3 +125,37 @@ Proof.
     + apply IH. assumption.
 Qed.
 Print Assumptions live_prepend_window.
+
+(** ** which slots of the coarser log a propagation level can rewrite: only those on its work list.
+    Everything already in log [l] stays, and every entry that is added carries the time of one of the
+    coarser intervals handed in -- a coarser slot none of the written points falls into keeps what it
+    holds, whatever that is (it may have been written directly and differ from the aggregate of the
+    finer data). *)
+Lemma spec_propagate_one_adds F m xff L logs l acc t logs' acc' :
+  spec_propagate_one F m xff L logs l acc t = Some (logs', acc') -> 0 <= l < zlen logs ->
+  exists added, get_log logs' l = added ++ get_log logs l /\ Forall (fun p => p_time p = t) added /\ zlen logs' = zlen logs.
+Proof.
+  unfold spec_propagate_one. intros H Hl.
+  destruct (known_log _ _ _ _ _); [injection H as <- <-; exists []; auto|].
+  destruct (f_frac_lt _ _ _ _); [injection H as <- <-; exists []; auto|].
+  destruct (aggregate _ _ _) as [v|]; [|discriminate].
+  destruct (l + 1 <? Z.of_nat (length L)); injection H as <- <-;
+    (exists [mkPoint t v]; split; [unfold add_log; rewrite get_log_zupd_same by assumption; reflexivity|];
+     split; [repeat constructor | apply zlen_add_log]).
+Qed.
+
+Theorem spec_propagate_adds F m xff L l : forall ts logs acc logs' acc',
+  spec_propagate F m xff L logs l acc ts = Some (logs', acc') -> 0 <= l < zlen logs ->
+  exists added, get_log logs' l = added ++ get_log logs l /\ Forall (fun p => In (p_time p) ts) added.
+Proof.
+  induction ts as [|t r IH]; intros logs acc logs' acc' H Hl; cbn [spec_propagate] in H.
+  - injection H as <- <-. exists []. auto.
+  - destruct (spec_propagate_one F m xff L logs l acc t) as [[lg1 a1]|] eqn:E; [|discriminate].
+    destruct (spec_propagate_one_adds _ _ _ _ _ _ _ _ _ _ E Hl) as (ad1 & H1 & F1 & Z1).
+    destruct (IH _ _ _ _ H ltac:(rewrite Z1; exact Hl)) as (ad2 & H2 & F2).
+    exists (ad2 ++ ad1). split.
+    + rewrite H2, H1, app_assoc. reflexivity.
+    + apply Forall_app. split.
+      * eapply Forall_impl; [|exact F2]. intros p Hp. now right.
+      * eapply Forall_impl; [|exact F1]. intros p Hp. now left.
+Qed.
